@@ -86,6 +86,10 @@ func (s *Service) proxyToSingleEndpoint(ctx context.Context, w http.ResponseWrit
 		s.RecordFailure(ctx, endpoint, time.Since(stats.StartTime), err)
 		return fmt.Errorf("failed to create proxy request: %w", err)
 	}
+	// the target as built, not as re-parsed from its text: a '#' the client's query string carries would
+	// otherwise be taken for the start of a fragment and the rest of the query be lost
+	builtURL := *targetURL
+	proxyReq.URL = &builtURL
 
 	rlog.Debug("created proxy request")
 
